@@ -181,9 +181,12 @@ def check_text(ctx, text, origin, ntok, floor_tokens):
     ctx.hit('refjs')
     nontrivial = ntok >= floor_tokens
     if work.uncertain(s.ref, s.ref_err):
+        # no verdict on acceptance; when both accept, the tree is still the one the grammar dictates
         ctx.count('oracle_uncertain')
-        ctx.case(text, False)
-        return None
+        if s.tree is None or s.ref is None:
+            ctx.case(text, False)
+            return None
+        ctx.count('oracle_uncertain:both_accept_trees_compared')
     if work.skip_known(ctx, text, s.ref):
         ctx.case(text, False)
         return None
@@ -267,7 +270,7 @@ def replay(ctx, witness):
     s = work.both(text)
     ctx.hit('parse')
     v = judge(s)
-    if v and not work.uncertain(s.ref, s.ref_err):
+    if v and not (work.uncertain(s.ref, s.ref_err) and (s.tree is None or s.ref is None)):
         ctx.violation(v[0], {'text': text}, v[1] + '\ninput: %r' % text)
     if witness.get('original'):
         s = work.both(witness['original'])
